@@ -8,21 +8,23 @@ import Rscp.Gen.Leaves
 namespace Rscp.Tie.Validate
 
 /-- source of `rscp_Message_validate` is unchanged -/
-theorem shape_rscp_Message_validate : Rscp.Gen.Shape.rscp_Message_validate = "964b537f93a2a756c396615db16ae150" := rfl
+theorem shape_rscp_Message_validate : Rscp.Gen.Shape.rscp_Message_validate = "7de991ab726689a28f00bf09180f434f" := rfl
 /-- source of `rscp_Message_size` is unchanged -/
-theorem shape_rscp_Message_size : Rscp.Gen.Shape.rscp_Message_size = "4ae33763fef3d7fccbf130e6b7d9641f" := rfl
+theorem shape_rscp_Message_size : Rscp.Gen.Shape.rscp_Message_size = "3105a16452c9d1fb6782e6d5de356ed6" := rfl
 /-- source of `rscp_messagesWideSize` is unchanged -/
-theorem shape_rscp_messagesWideSize : Rscp.Gen.Shape.rscp_messagesWideSize = "221d20266f0ffe3f282f0b5a1f5b7891" := rfl
+theorem shape_rscp_messagesWideSize : Rscp.Gen.Shape.rscp_messagesWideSize = "877aa9bc040b97712ecce7e5bf2c567b" := rfl
 /-- source of `rscp_validateRequest` is unchanged -/
-theorem shape_rscp_validateRequest : Rscp.Gen.Shape.rscp_validateRequest = "017eb7b0e4d54e69ebe76370aec21915" := rfl
+theorem shape_rscp_validateRequest : Rscp.Gen.Shape.rscp_validateRequest = "9d6a7d1f97f4cbf5d05a7cc9782c2f7c" := rfl
 /-- source of `rscp_validateRequests` is unchanged -/
-theorem shape_rscp_validateRequests : Rscp.Gen.Shape.rscp_validateRequests = "3c2557152ec1d84ad3b63ecb1c82d4ae" := rfl
+theorem shape_rscp_validateRequests : Rscp.Gen.Shape.rscp_validateRequests = "cbf93e4999eae814cf59fb74f46af680" := rfl
 /-- source of `rscp_DataType_isValidValue` is unchanged -/
-theorem shape_rscp_DataType_isValidValue : Rscp.Gen.Shape.rscp_DataType_isValidValue = "ab535fee51bad3079543523fd1f569e1" := rfl
+theorem shape_rscp_DataType_isValidValue : Rscp.Gen.Shape.rscp_DataType_isValidValue = "eab3b926fbb998b730e5a0f5bfe62a71" := rfl
 /-- source of `rscp_DataType_length` is unchanged -/
-theorem shape_rscp_DataType_length : Rscp.Gen.Shape.rscp_DataType_length = "255ffd13f6a735b6a90e61662336bcc6" := rfl
+theorem shape_rscp_DataType_length : Rscp.Gen.Shape.rscp_DataType_length = "e95e4ea52c548bbb6c125bd79826b973" := rfl
 /-- source of `rscp_Tag_isRequest` is unchanged -/
-theorem shape_rscp_Tag_isRequest : Rscp.Gen.Shape.rscp_Tag_isRequest = "8ae75144e9c1c8a6fbc4b71d4091e1c5" := rfl
+theorem shape_rscp_Tag_isRequest : Rscp.Gen.Shape.rscp_Tag_isRequest = "16789c2226ddf747e88c908bc1454da6" := rfl
+/-- source of `rscp_var_validateMap` is unchanged -/
+theorem shape_rscp_var_validateMap : Rscp.Gen.Shape.rscp_var_validateMap = "de4e7a33108b1c417fc133040a368714" := rfl
 /-- leaf `validate_tooLong`: source text and argument list are unchanged -/
 theorem leaf_validate_tooLong_src : Rscp.Gen.Leaf.validate_tooLong_src = "m.size() > uint64(RSCP_DATA_MAX_DATA_SIZE)" := rfl
 theorem leaf_validate_tooLong_args : Rscp.Gen.Leaf.validate_tooLong_args = ["m.size()"] := rfl
